@@ -24,6 +24,9 @@ type UpFile struct {
 	// Listed: the size the control file claims, when it differs from the file's real size (a
 	// control file written before the last rebuild); 0 = the real size
 	Listed int `json:"listed,omitempty"`
+	// Link: the listed name is a symbolic link in the source directory to the real file in
+	// src/sub/ (1 = relative target, 2 = absolute target) - a shared .orig.tar.gz, say
+	Link int `json:"link,omitempty"`
 }
 
 func (f UpFile) listedSize() int {
@@ -36,6 +39,10 @@ func (f UpFile) listedSize() int {
 type UpOp struct {
 	Kind string `json:"kind"` // copy | move | remove
 	Dest string `json:"dest"` // d1 | d2
+	// ViaLink: the destination is named as <symlink>/.., where the symlink leads to a directory
+	// INSIDE the destination: the kernel ends up in the destination, a path cleaned as text one
+	// level above it
+	ViaLink bool `json:"viaLink,omitempty"`
 }
 
 type UploadCase struct {
@@ -63,7 +70,8 @@ type UploadCase struct {
 	// outside may be touched.
 	Layout string `json:"layout,omitempty"`
 	// Spelling: how the path given to ParseDscFile / ParseChangesFile spells the control file's
-	// location: 0 clean, 1 ".../src/./name", 2 ".../src/../src/name", 3 "...//src/name"
+	// location: 0 clean, 1 ".../src/./name", 2 ".../src/../src/name", 3 "...//src/name",
+	// 4 "../name" given to Parse*File from a working directory reached through a symbolic link
 	Spelling int `json:"spelling,omitempty"`
 }
 
@@ -124,12 +132,15 @@ func genUploadCase(t *rapid.T) UploadCase {
 		if rapid.IntRange(0, 9).Draw(t, "sizelie") == 0 {
 			uf.Listed = uf.Size + rapid.SampledFrom([]int{1, 100, 4096}).Draw(t, "sizelieBy")
 		}
+		if plainName(name) && rapid.IntRange(0, 7).Draw(t, "srcLink") == 0 {
+			uf.Link = rapid.IntRange(1, 2).Draw(t, "srcLinkKind")
+		}
 		c.Files = append(c.Files, uf)
 	}
 	nops := rapid.SampledFrom([]int{1, 1, 1, 2, 3}).Draw(t, "nops")
 	for i := 0; i < nops; i++ {
 		k := rapid.SampledFrom([]string{"copy", "move", "remove"}).Draw(t, "op")
-		c.Ops = append(c.Ops, UpOp{Kind: k, Dest: rapid.SampledFrom([]string{"d1", "d2"}).Draw(t, "dest")})
+		c.Ops = append(c.Ops, UpOp{Kind: k, Dest: rapid.SampledFrom([]string{"d1", "d2"}).Draw(t, "dest"), ViaLink: rapid.IntRange(0, 5).Draw(t, "viaLink") == 0})
 		if k == "remove" {
 			break
 		}
@@ -158,7 +169,7 @@ func genUploadCase(t *rapid.T) UploadCase {
 		}
 	}
 	if rapid.IntRange(0, 3).Draw(t, "spelled") == 0 {
-		c.Spelling = rapid.IntRange(1, 3).Draw(t, "spelling")
+		c.Spelling = rapid.IntRange(1, 4).Draw(t, "spelling")
 	}
 	if rapid.IntRange(0, 7).Draw(t, "selfListed") == 0 {
 		if c.Spelling == 0 && rapid.Bool().Draw(t, "selfSpelled") {
@@ -341,15 +352,37 @@ func checkUploadCase(c UploadCase, r *Recorder) error {
 	os.WriteFile(filepath.Join(root, "d1", "planted"), []byte("PLANTED-IN-D1"), 0o644)
 	os.WriteFile(filepath.Join(root, "outside", "real.dsc"), []byte("Format: 3.0 (quilt)\nSource: elsewhere\nBinary: elsewhere\nArchitecture: any\nVersion: 1.0-1\nMaintainer: A B <a@b.c>\nFiles:\n 00000000000000000000000000000000 23 victim\n"), 0o644)
 	// referenced files: materialise those that resolve inside src
-	for _, f := range c.Files {
+	for fi, f := range c.Files {
 		if f.Name == c.ctlName() {
 			continue // the control file itself, written below
 		}
 		p := filepath.Join(root, "src", f.Name)
 		if rel, err := filepath.Rel(filepath.Join(root, "src"), p); err == nil && !strings.HasPrefix(rel, "..") && rel != "." {
 			os.MkdirAll(filepath.Dir(p), 0o755)
+			if f.Link != 0 && plainName(f.Name) {
+				real := filepath.Join(root, "src", "sub", fmt.Sprintf("real-%d", fi)) // (a short name: the listed one may be 255 bytes long)
+				os.WriteFile(real, upContent(f), 0o644)
+				target := fmt.Sprintf("sub/real-%d", fi)
+				if f.Link == 2 {
+					target = real
+				}
+				os.Symlink(target, p)
+				r.Count("source-symlink", 1)
+				continue
+			}
 			os.WriteFile(p, upContent(f), 0o644)
 		}
+	}
+	// what lies one level above the destinations when their path is cleaned as text
+	for _, f := range c.Files {
+		if plainName(f.Name) && f.Name != c.ctlName() {
+			os.WriteFile(filepath.Join(root, f.Name), []byte("PLANTED-ABOVE-"+f.Name), 0o644)
+		}
+	}
+	os.WriteFile(filepath.Join(root, c.ctlName()), []byte("PLANTED-ABOVE-CTL"), 0o644)
+	for _, dd := range []string{"d1", "d2"} {
+		os.MkdirAll(filepath.Join(root, dd, "deep"), 0o755)
+		os.Symlink(filepath.Join(root, dd, "deep"), filepath.Join(root, "lnk-"+dd))
 	}
 	ctlPath := filepath.Join(root, "src", c.ctlName())
 	ctlText := c.controlText(root)
@@ -374,12 +407,34 @@ func checkUploadCase(c UploadCase, r *Recorder) error {
 		openPath = filepath.Join(root, "src") + "/../src/" + c.ctlName()
 	case 3:
 		openPath = root + "//src/" + c.ctlName()
+	case 4:
+		// a relative path, given from a working directory the shell reached through a symbolic link
+		// ($PWD is the logical name): "../x.dsc" is the file one level above where the process
+		// IS, which is src - not the file next to the link
+		cwdLink := filepath.Join(root, "cwdlink")
+		if os.Symlink(filepath.Join(root, "src", "sub"), cwdLink) == nil {
+			oldWd, werr := os.Getwd()
+			oldPwd, hadPwd := os.LookupEnv("PWD")
+			if werr == nil && os.Chdir(cwdLink) == nil {
+				os.Setenv("PWD", cwdLink)
+				defer func() {
+					os.Chdir(oldWd)
+					if hadPwd {
+						os.Setenv("PWD", oldPwd)
+					} else {
+						os.Unsetenv("PWD")
+					}
+				}()
+				openPath = "../" + c.ctlName()
+				r.Count("relative-path-from-a-linked-cwd", 1)
+			}
+		}
 	}
 	var h uploadHandle
 	var filenameOf func() string
 	if c.Handle == "dsc" {
 		d, err := control.ParseDscFile(openPath)
-		if c.Spelling != 0 {
+		if c.Spelling != 0 && c.Spelling != 4 {
 			// ParseDscFile makes the path absolute (and clean); the reader-based entry point keeps
 			// the caller's spelling in Filename
 			d, err = control.ParseDsc(bufio.NewReader(strings.NewReader(ctlText)), openPath)
@@ -390,7 +445,7 @@ func checkUploadCase(c UploadCase, r *Recorder) error {
 		h, filenameOf = d, func() string { return d.Filename }
 	} else {
 		ch, err := control.ParseChangesFile(openPath)
-		if c.Spelling != 0 {
+		if c.Spelling != 0 && c.Spelling != 4 {
 			ch, err = control.ParseChanges(bufio.NewReader(strings.NewReader(ctlText)), openPath)
 		}
 		if err != nil {
@@ -487,6 +542,9 @@ func checkUploadCase(c UploadCase, r *Recorder) error {
 		if c.Stale || len(c.Files)%2 == 1 {
 			destArg += "/" // a directory may be named with a trailing slash
 		}
+		if op.ViaLink && op.Kind != "remove" {
+			destArg = filepath.Join(root, "lnk-"+op.Dest) + "/.."
+		}
 		switch op.Kind {
 		case "copy":
 			operr = h.Copy(destArg)
@@ -505,6 +563,16 @@ func checkUploadCase(c UploadCase, r *Recorder) error {
 					return errf("%s of %s read a file from outside the source directory into %s/%s; listed names %v, Filename field %q", op.Kind, c.Handle, dd, p, upNames(c.Files), c.FilenameF)
 				}
 			}
+		}
+		for _, f := range c.Files {
+			if plainName(f.Name) && f.Name != c.ctlName() {
+				if b, err := os.ReadFile(filepath.Join(root, f.Name)); err != nil || string(b) != "PLANTED-ABOVE-"+f.Name {
+					return errf("%s of %s (destination given as %q) touched %s one level above the directories involved (now %q, err %v)", op.Kind, c.Handle, destArg, f.Name, b, err)
+				}
+			}
+		}
+		if b, err := os.ReadFile(filepath.Join(root, c.ctlName())); err != nil || string(b) != "PLANTED-ABOVE-CTL" {
+			return errf("%s of %s (destination given as %q) touched %s one level above the directories involved (now %q, err %v)", op.Kind, c.Handle, destArg, c.ctlName(), b, err)
 		}
 		d1Involved := loc == "d1" || (op.Kind != "remove" && op.Dest == "d1")
 		if b, err := os.ReadFile(filepath.Join(root, "d1", "planted")); !d1Involved && (err != nil || string(b) != "PLANTED-IN-D1") {
@@ -581,7 +649,12 @@ func checkUploadCase(c UploadCase, r *Recorder) error {
 		switch op.Kind {
 		case "copy", "move":
 			if want := filepath.Join(dstDir, c.ctlName()); allPlain && filepath.Clean(filenameOf()) != want {
-				return errf("after %s the handle points at %q, want %q", op.Kind, filenameOf(), want)
+				// (a destination named through a symbolic link is the same place under another name)
+				got, _ := filepath.EvalSymlinks(filenameOf())
+				phys, _ := filepath.EvalSymlinks(want)
+				if got == "" || got != phys {
+					return errf("after %s the handle points at %q, want %q", op.Kind, filenameOf(), want)
+				}
 			}
 			if b, err := os.ReadFile(ctlInDst); allPlain && (err != nil || string(b) != ctlText) {
 				return errf("after %s the control file in the destination is missing or differs (%v)", op.Kind, err)
@@ -643,7 +716,7 @@ func upNames(fs []UpFile) []string {
 
 var specC20 = Register(&Spec[UploadCase]{
 	Prop: "C20", Name: "upload",
-	Rule:  "histories of 1..3 operations (Copy/Move into d1|d2, Remove) on one .dsc or .changes handle over a fresh scratch tree root/{src,src/sub,d1,d2,outside}; 0..5 referenced files (sizes 0, 1, 7, 300, 32767..32769, 100000; one plain name in twenty is 200..255 bytes long; one file in ten is listed with a size that is not its real one - the hashes are made up anyway, nothing in the statement makes Copy/Move verify either); a quarter of the uploads list adversarial names ('../outside/victim', '../d1/planted', 'sub/x', absolute, '..', '.', '/', '//', '../', 'sub/../../outside/victim') and/or carry a literal 'Filename:' field pointing elsewhere, and a third of those have no Files field at all (Checksums-Sha256 only) or list the adversarial names in Checksums-Sha256 only; in a quarter of the cases both destinations already hold same-named files of the same length with other bytes (leftovers of an earlier upload); in a fifth of the cases d2 is on another file system (/dev/shm, when there is one), where a Move may fail as a whole but must not half-succeed; in a sixth of the cases the destination of the last operation holds a planted symbolic link to root/outside/victim under the name of a referenced file or of the control file; in a third of the .changes cases a listed .dsc is a real one whose own Files field names ../outside/victim and sub/inner (nobody asked for the files a listed file lists); in an eighth the control file lists itself (refusing is fine, but then nothing may have moved and the control file is not in the destination); in a quarter (half of the self-listing ones) the handle comes from ParseDsc / ParseChanges(reader, path) with the path spelled src/./x.dsc, src/../src/x.dsc or //src/x.dsc; an operation whose destination is the directory the upload already lives in (also spelled d1/../src/.) must leave that directory bit-identical whatever it returns; the last operation optionally runs with ONE planted fault at step i in {file 0..n-1, control file}: source deleted, source replaced by a non-empty directory, a non-empty directory squatting on the destination name, destination directory missing or a regular file. Oracle: success (plain names, no fault) => all files and the control file byte-identical in the destination (Move: gone from source; Remove: gone), handle.Filename == dest/base; fault => an error, no regular control file in the destination, for Move/Remove the control file intact at its source; always => root/outside bit-identical, no destination file carries outside content, d1/planted untouched when d1 is not involved. Non-trivial: >= 2 files with a fault at step >= 1, or non-plain names; distinct by case.",
+	Rule:  "histories of 1..3 operations (Copy/Move into d1|d2, Remove) on one .dsc or .changes handle over a fresh scratch tree root/{src,src/sub,d1,d2,outside}; 0..5 referenced files (sizes 0, 1, 7, 300, 32767..32769, 100000; one plain name in twenty is 200..255 bytes long; one file in ten is listed with a size that is not its real one - the hashes are made up anyway, nothing in the statement makes Copy/Move verify either); a quarter of the uploads list adversarial names ('../outside/victim', '../d1/planted', 'sub/x', absolute, '..', '.', '/', '//', '../', 'sub/../../outside/victim') and/or carry a literal 'Filename:' field pointing elsewhere, and a third of those have no Files field at all (Checksums-Sha256 only) or list the adversarial names in Checksums-Sha256 only; in a quarter of the cases both destinations already hold same-named files of the same length with other bytes (leftovers of an earlier upload); in a fifth of the cases d2 is on another file system (/dev/shm, when there is one), where a Move may fail as a whole but must not half-succeed; in a sixth of the cases the destination of the last operation holds a planted symbolic link to root/outside/victim under the name of a referenced file or of the control file; one listed file in eight is a symbolic link in the source directory to the real file in src/sub (relative or absolute target); one destination in six is named as <symlink>/.. with the link leading to a directory inside the destination, and same-named files are planted one level above (where a path cleaned as text would land); in a third of the .changes cases a listed .dsc is a real one whose own Files field names ../outside/victim and sub/inner (nobody asked for the files a listed file lists); in an eighth the control file lists itself (refusing is fine, but then nothing may have moved and the control file is not in the destination); in a quarter (half of the self-listing ones) the handle comes from ParseDsc / ParseChanges(reader, path) with the path spelled src/./x.dsc, src/../src/x.dsc or //src/x.dsc, or from Parse*File of ../x.dsc called in a working directory that was entered through a symbolic link ($PWD logical); an operation whose destination is the directory the upload already lives in (also spelled d1/../src/.) must leave that directory bit-identical whatever it returns; the last operation optionally runs with ONE planted fault at step i in {file 0..n-1, control file}: source deleted, source replaced by a non-empty directory, a non-empty directory squatting on the destination name, destination directory missing or a regular file. Oracle: success (plain names, no fault) => all files and the control file byte-identical in the destination (Move: gone from source; Remove: gone), handle.Filename == dest/base; fault => an error, no regular control file in the destination, for Move/Remove the control file intact at its source; always => root/outside bit-identical, no destination file carries outside content, d1/planted untouched when d1 is not involved. Non-trivial: >= 2 files with a fault at step >= 1, or non-plain names; distinct by case.",
 	Check: checkUploadCase,
 })
 
